@@ -1,6 +1,6 @@
 import Vflow.Model.Flow
 /-!
-# Model of `ipfix/decoder.go` (as it is after the F2 and the padding repairs)
+# Model of `ipfix/decoder.go` (as it is after the F2, the padding and the F23 repairs)
 
 One small function per Go block.  Composite reads return `Except Err α × Rd` so that the reader
 position after a failure is available (the Go code uses it to compute how much of the set to skip).
@@ -62,9 +62,11 @@ def parseOptTpl (r : Rd) : Except Err Template × Rd :=
           | (.error e, r5) => (.error e, r5)
           | (.ok fs, r5) => (.ok ⟨tid, n, sc, scs, fs⟩, r5)
 
-/-- `getDataLength` -/
-def dataLen (r : Rd) (specLen t : Nat) : Except Err Nat × Rd :=
-  if (t = tString ∨ t = tOctets) ∧ specLen = 65535 then
+/-- `getDataLength`: the length 65535 is the variable-length marker for an element of ANY type (RFC 7011 §7;
+until the F23 repair the code honoured it only for string / octetArray elements and otherwise tried to read
+65535 octets) -/
+def dataLen (r : Rd) (specLen : Nat) : Except Err Nat × Rd :=
+  if specLen = 65535 then
     match r.rU8 with
     | none => (.error .short, r)
     | some (l8, r1) =>
@@ -82,7 +84,7 @@ def decFields : List Spec → Rd → Record → (Except Err Record × Rd)
     match lookupElem f.ent f.id with
     | none => (.error .unknownElem, r)
     | some (fid, t) =>
-      match dataLen r f.len t with
+      match dataLen r f.len with
       | (.error e, r1) => (.error e, r1)
       | (.ok n, r1) =>
         match r1.readN n with
